@@ -8,6 +8,8 @@ import LLBuild.Model.ProcStatus
   c16order      <alg> <jobs>                            one lane, everything queued behind a gate: pop order
   c16classify   <raw wait status>                       classify
   c16env        <inherit> <requested> <base> <control> <buildId> <laneId> <taskId> <controlFd>   environment assembly
+  c16esc        <acts>      comma separated spawn | rel:<pid> | reap:<pid> | cancel | enter | wake | joinlanes | complete | joinesc:
+                            the released-lane / escalation-thread / destructor model (`ProcStatus.Esc.step`, the code in the tree)
 -/
 namespace LLBuild.Drv.C16
 open LLBuild LLBuild.Drv LLBuild.LaneQueue
@@ -283,8 +285,45 @@ def stepEnv (line : String) : String :=
     | _, _, _, _, _, _ => "bad-op"
   | _ => "bad-op"
 
+open LLBuild.ProcStatus in
+def parseEscAct (t : String) : Option Esc.Act :=
+  match t.splitOn ":" with
+  | ["spawn"] => some .spawn
+  | ["cancel"] => some .cancel
+  | ["enter"] => some .escEnter
+  | ["wake"] => some .escWake
+  | ["joinlanes"] => some .joinLanes
+  | ["complete"] => some .complete
+  | ["joinesc"] => some .joinEsc
+  | ["rel", p] => p.toNat?.map .release
+  | ["reap", p] => p.toNat?.map .reap
+  | _ => none
+
+open LLBuild.ProcStatus in
+/-- runs the acts; a refused step is reported with its index -/
+def escLoop : Esc.State → List Esc.Act → Nat → Except Nat Esc.State
+  | s, [], _ => .ok s
+  | s, a :: as, i => match Esc.step s a with
+    | some s' => escLoop s' as (i + 1)
+    | none => .error i
+
+open LLBuild.ProcStatus in
+def stepEsc (line : String) : String :=
+  match fields line with
+  | [acts] =>
+    match (acts.splitOn ",").mapM parseEscAct with
+    | some l =>
+      match escLoop Esc.init l 0 with
+      | .ok s =>
+        let ids := fun (l : List Nat) => if l.isEmpty then "." else ",".intercalate (l.map toString)
+        let sorted := fun (l : List Nat) => (l.toArray.qsort (· < ·)).toList.eraseDups
+        s!"ok=1 joined={if s.escJoined then 1 else 0} waited={if s.waited then 1 else 0} registered={ids (sorted (s.procs.map (·.1)))} killed={ids (sorted s.killSent)}"
+      | .error i => s!"ok=0 refused={i}"
+    | none => "bad-op"
+  | _ => "bad-op"
+
 def modes : List (String × Mode) :=
   [("c16sim", lineLoop stepSim), ("c16simserial", lineLoop stepSimSerial), ("c16order", lineLoop stepOrder),
-   ("c16classify", lineLoop stepClassify), ("c16env", lineLoop stepEnv)]
+   ("c16classify", lineLoop stepClassify), ("c16env", lineLoop stepEnv), ("c16esc", lineLoop stepEsc)]
 
 end LLBuild.Drv.C16
